@@ -688,24 +688,10 @@ impl World {
         Ok(())
     }
 
-    pub fn check_layout(&mut self) -> VResult<()> {
+    pub fn check_layout(&self) -> VResult<()> {
         let db = self.db();
         let layout = db.verif_layout();
         check_layout_wellformed(db, &layout, true)?;
-        // shape counters
-        let l0 = layout[0].len() as u64;
-        self.shape.max_l0 = self.shape.max_l0.max(l0);
-        let mut total = 0u64;
-        for (lvl, files) in layout.iter().enumerate() {
-            total += files.len() as u64;
-            if lvl >= 1 {
-                self.shape.max_level_files = self.shape.max_level_files.max(files.len() as u64);
-            }
-            if !files.is_empty() {
-                self.shape.deepest_level = self.shape.deepest_level.max(lvl as u64);
-            }
-        }
-        self.shape.max_total_files = self.shape.max_total_files.max(total);
         Ok(())
     }
 
@@ -763,25 +749,40 @@ impl World {
         Ok(())
     }
 
-    /// Canonical abstract state (evidence only: distinct states visited).
-    pub fn state_hash(&self) -> u64 {
+    /// Canonical abstract state (evidence only: distinct states visited) and shape counters.
+    pub fn state_hash_and_shape(&self) -> (u64, Shape) {
         use std::hash::{Hash, Hasher};
         let mut h = std::collections::hash_map::DefaultHasher::new();
+        let mut shape = Shape::default();
         self.model.hash(&mut h);
         if let Some(db) = self.db.as_ref() {
             let layout = db.verif_layout();
+            let mut total = 0u64;
             for (lvl, files) in layout.iter().enumerate() {
                 lvl.hash(&mut h);
+                total += files.len() as u64;
+                if lvl == 0 {
+                    shape.max_l0 = files.len() as u64;
+                } else {
+                    shape.max_level_files = shape.max_level_files.max(files.len() as u64);
+                }
+                if !files.is_empty() {
+                    shape.deepest_level = lvl as u64;
+                }
                 for f in files {
                     f.smallest.hash(&mut h);
                     f.largest.hash(&mut h);
                     f.size.hash(&mut h);
                 }
             }
+            shape.max_total_files = total;
             let info = db.verif_info();
             info.memtable_entries.hash(&mut h);
             info.immutable_entries.hash(&mut h);
             info.has_immutable_memtable.hash(&mut h);
+            if info.has_immutable_memtable {
+                shape.imm_seen = 1;
+            }
         }
         self.snaps.len().hash(&mut h);
         for (_, m) in self.snaps.iter() {
@@ -789,7 +790,7 @@ impl World {
         }
         self.iter.is_some().hash(&mut h);
         self.cfg.hash(&mut h);
-        h.finish()
+        (h.finish(), shape)
     }
 }
 
